@@ -15,6 +15,7 @@ import (
 	"sort"
 	"strings"
 	"sync"
+	"sync/atomic"
 
 	"github.com/jub0bs/cors"
 	"github.com/jub0bs/cors/internal/zzverif/vlib"
@@ -50,6 +51,21 @@ func cfgAtol() cors.Config {
 	c.DangerouslyTolerateInsecureOrigins, c.DangerouslyTolerateSubdomainsOfPublicSuffixes = true, true
 	return c
 }
+
+// cfgL1 and cfgL2 have lists that validation has to filter, fold and de-duplicate (a repeated origin, safelisted and
+// re-cased names, `*` next to Authorization). lv1 and lv2 are long-lived values of them that the caller never edits
+// and hands to Reconfigure again and again ("lv1"/"lv2"): what a Config value means does not wear off with use.
+func cfgL1() cors.Config {
+	return cors.Config{Origins: []string{"https://a.example", "https://l1.example", "https://a.example"}, Methods: []string{"GET", "PUT", "put", "PUT"}, RequestHeaders: []string{"*", "Authorization", "X-L1"},
+		ResponseHeaders: []string{"Cache-Control", "X-Ra", "x-ra", "X-L1", "Content-Type"}, MaxAgeInSeconds: 30}
+}
+
+func cfgL2() cors.Config {
+	return cors.Config{Origins: []string{"https://b.example", "https://b.example", "https://l2.example"}, Methods: []string{"POST", "DELETE", "Delete"}, RequestHeaders: []string{"Accept", "X-B", "x-b", "X-L2"},
+		ResponseHeaders: []string{"X-Rb", "Expires", "X-RB", "X-L2"}, MaxAgeInSeconds: 30}
+}
+
+var lv1, lv2 cors.Config
 
 // tpl is the one long-lived Config value of the "tplA"/"tplT" reconfigurations: its list elements are overwritten
 // in place and the same value is handed to Reconfigure again (what a reload loop that unmarshals into one variable
@@ -212,6 +228,10 @@ func doOp(m *cors.Middleware, o opSpec) string {
 		case "invalid":
 			c := cfgInvalid()
 			err = m.Reconfigure(&c)
+		case "lv1":
+			err = m.Reconfigure(&lv1)
+		case "lv2":
+			err = m.Reconfigure(&lv2)
 		case "tplA", "tplT":
 			src := cfgA()
 			if o.Arg == "tplT" {
@@ -605,6 +625,8 @@ var longRunPatterns = [][]opSpec{
 	// one Config value whose list elements are overwritten in place between two Reconfigure calls
 	{{"reconfigure", "tplT"}, {"reconfigure", "tplA"}, {"setdebug", "true"}, {"reconfigure", "tplT"}, {"config", ""}, {"reconfigure", "tplA"}, {"setdebug", "false"}},
 	{{"reconfigure", "tplT"}, {"reconfigure", "B"}, {"reconfigure", "tplT"}, {"reconfigure", "tplA"}, {"reconfigure", "A+"}, {"setdebug", "true"}, {"reconfigure", "tplA"}, {"reconfigure", "invalid"}, {"reconfigure", "tplT"}},
+	// long-lived Config values, never edited, handed over again and again
+	{{"reconfigure", "lv1"}, {"reconfigure", "lv2"}, {"reconfigure", "lv1"}, {"setdebug", "true"}, {"reconfigure", "lv2"}, {"config", ""}, {"reconfigure", "lv1"}, {"reconfigure", "lv1"}, {"setdebug", "false"}, {"reconfigure", "lv2"}},
 	// configurations that no response tells apart (A and A with the DangerouslyTolerate* switches on)
 	{{"reconfigure", "A~"}, {"reconfigure", "A"}, {"setdebug", "true"}, {"reconfigure", "A~"}, {"config", ""}, {"reconfigure", "tplA"}, {"reconfigure", "A~"}, {"setdebug", "false"}},
 }
@@ -621,12 +643,12 @@ type longRunExpectation struct {
 var longRunExpect = map[string]longRunExpectation{}
 
 func warmLongRunExpect() {
-	for _, cfg := range []string{"", "A", "B", "A+", "T", "A~"} {
+	for _, cfg := range []string{"", "A", "B", "A+", "T", "A~", "L1", "L2"} {
 		for _, dbg := range []bool{false, true} {
 			var e longRunExpectation
 			fresh := new(cors.Middleware)
 			if cfg != "" {
-				c := map[string]func() cors.Config{"A": cfgA, "B": cfgB, "A+": cfgAplus, "T": cfgT, "A~": cfgAtol}[cfg]()
+				c := map[string]func() cors.Config{"A": cfgA, "B": cfgB, "A+": cfgAplus, "T": cfgT, "A~": cfgAtol, "L1": cfgL1, "L2": cfgL2}[cfg]()
 				var err error
 				if fresh, err = cors.NewMiddleware(c); err != nil {
 					e.err = "configuration " + cfg + " rejected: " + err.Error()
@@ -679,6 +701,7 @@ func longRun(init string, gap, pat int) string {
 	longRunPattern := longRunPatterns[pat]
 	m := newInit(init)
 	tpl = cfgA()
+	lv1, lv2 = cfgL1(), cfgL2()
 	fw := &fwdHandler{}
 	h := m.Wrap(fw)
 	cfg, dbg := "A", init == "A+debug"
@@ -699,6 +722,10 @@ func longRun(init string, gap, pat int) string {
 			}
 		case o.Arg == "nil":
 			cfg, dbg = "", false
+		case o.Arg == "lv1":
+			cfg = "L1"
+		case o.Arg == "lv2":
+			cfg = "L2"
 		case o.Arg == "tplA":
 			cfg = "A"
 		case o.Arg == "tplT":
@@ -897,7 +924,7 @@ func main() {
 			}
 		}
 	}
-	c.Set("long_run_gaps", len(longRunGaps(0))+len(longRunGaps(1))+len(longRunGaps(2))+len(longRunGaps(3))+len(longRunGaps(4)))
+	c.Set("long_run_gaps", len(longRunGaps(0))+len(longRunGaps(1))+len(longRunGaps(2))+len(longRunGaps(3))+len(longRunGaps(4))+len(longRunGaps(5)))
 	if c.Violated() {
 		// the sequential pre-pass has a witness already; code that fails it may keep process-wide state, under which
 		// the schedule exploration below would not even be deterministic
@@ -914,6 +941,37 @@ func main() {
 	var wg sync.WaitGroup
 	var werr []string
 	self, _ := os.Executable()
+	// violations are handled as the workers report them; once enough witnesses are recorded the workers are stopped
+	// (a change that breaks the property may also make every execution much slower)
+	var cmds []*exec.Cmd
+	var stopping atomic.Bool
+	handled := map[int]bool{}
+	handle := func(i int, st *stats) {
+		for vi, w := range st.Violations {
+			w := w
+			detail := st.Details[vi]
+			c.Violation(w, vlib.Failf("%s\nscenario: %s\nschedule: %v", detail, w.Scenario, w.Trace), func() *vlib.Failure {
+				bad, err := judge(w)
+				if err != nil {
+					vlib.HarnessError("%v", err)
+				}
+				if bad == "" {
+					return nil
+				}
+				return vlib.Failf("%s", bad)
+			}, testText(w, detail))
+		}
+		if c.Stopped() && !stopping.Swap(true) {
+			mu.Lock()
+			for _, cmd := range cmds {
+				if cmd.Process != nil {
+					cmd.Process.Kill()
+				}
+			}
+			mu.Unlock()
+		}
+	}
+	var handleMu sync.Mutex
 	for w := 0; w < nw; w++ {
 		wg.Add(1)
 		go func(w int) {
@@ -929,12 +987,18 @@ func main() {
 				mu.Unlock()
 				return
 			}
+			mu.Lock()
+			if stopping.Load() {
+				mu.Unlock()
+				return
+			}
 			if err := cmd.Start(); err != nil {
-				mu.Lock()
 				werr = append(werr, err.Error())
 				mu.Unlock()
 				return
 			}
+			cmds = append(cmds, cmd)
+			mu.Unlock()
 			dec := json.NewDecoder(outp)
 			for {
 				var r workerResult
@@ -944,8 +1008,14 @@ func main() {
 				mu.Lock()
 				results[r.Index] = r.Stats
 				mu.Unlock()
+				if r.Stats != nil && len(r.Stats.Violations) > 0 && r.Stats.HarnessErr == "" {
+					handleMu.Lock()
+					handled[r.Index] = true
+					handle(r.Index, r.Stats)
+					handleMu.Unlock()
+				}
 			}
-			if err := cmd.Wait(); err != nil {
+			if err := cmd.Wait(); err != nil && !stopping.Load() {
 				mu.Lock()
 				werr = append(werr, fmt.Sprintf("worker %d: %v: %s", w, err, tail(stderr.String(), 1500)))
 				mu.Unlock()
@@ -959,9 +1029,15 @@ func main() {
 	var twoAll, twoBounded, three int
 	var maxDec int
 	outcomes := 0
+	if stopping.Load() {
+		c.Cap("schedule exploration stopped early: enough violations were recorded")
+	}
 	for i, st := range results {
 		s := scs[i]
 		if st == nil {
+			if stopping.Load() {
+				continue
+			}
 			vlib.HarnessError("no result for scenario %d (%s)", i, s)
 		}
 		if st.HarnessErr != "" {
@@ -988,19 +1064,8 @@ func main() {
 		if i%97 == 0 {
 			c.Sample(map[string]any{"scenario": s.String(), "schedules": st.Schedules, "distinct_outcomes": st.NOutcomes, "max_decisions": st.MaxDecisions})
 		}
-		for vi, w := range st.Violations {
-			w := w
-			detail := st.Details[vi]
-			c.Violation(w, vlib.Failf("%s\nscenario: %s\nschedule: %v", detail, w.Scenario, w.Trace), func() *vlib.Failure {
-				bad, err := judge(w)
-				if err != nil {
-					vlib.HarnessError("%v", err)
-				}
-				if bad == "" {
-					return nil
-				}
-				return vlib.Failf("%s", bad)
-			}, testText(w, detail))
+		if !handled[i] {
+			handle(i, st)
 		}
 	}
 	c.Nontrivial.Add(int64(outcomes))
